@@ -98,9 +98,17 @@ func (fx *fnExec) posInv(st *State, ht, a string) (pos, end, inv string, ok bool
 		return "", "", "", false
 	}
 	var cs []string
+	var desc []string
+	note := func(d string) {
+		for len(desc) < len(cs) {
+			desc = append(desc, d)
+		}
+	}
+	defer func() { fx.lastPFParts, fx.lastPFDesc = cs, desc }()
 	gp, ge := fx.gposOf(st, a), fx.gendOf(st, a)
 	cs = append(cs, app("<=", "0", gp), app("<=", gp, ge))
-	type child struct{ isNil, pos, end string }
+	note("0 <= pos <= end")
+	type child struct{ isNil, pos, end, name string }
 	var order []child
 	for i := 0; i < ni.st.NumFields(); i++ {
 		f := ni.st.Field(i)
@@ -115,19 +123,26 @@ func (fx *fnExec) posInv(st *State, ht, a string) (pos, end, inv string, ok bool
 			}
 			ref, isNil, _, _ := refOf(v)
 			cp, ce := fx.gposOf(st, ref), fx.gendOf(st, ref)
-			cs = append(cs, or(isNil, and(fx.pfOf(st, ref), app("<=", gp, cp), app("<=", ce, ge))))
-			order = append(order, child{isNil, cp, ce})
+			cs = append(cs, or(isNil, fx.pfOf(st, ref)))
+			note("child " + f.Name() + " pf")
+			cs = append(cs, or(isNil, app("<=", gp, cp)))
+			note("child " + f.Name() + " starts inside")
+			cs = append(cs, or(isNil, app("<=", ce, ge)))
+			note("child " + f.Name() + " ends inside")
+			order = append(order, child{isNil, cp, ce, f.Name()})
 		case SliceV:
 			if !isNodeType(fx.g, x.Elem) {
 				continue
 			}
 			cs = append(cs, fx.pfAllTerm(st, x))
+			note("slice " + f.Name() + " elements pf/ordered")
 			{
 				f0, l0 := fx.elemRef(x, "0"), fx.elemRef(x, sub(x.Len, "1"))
 				cs = append(cs, or(eq(x.Len, "0"), and(app("<=", gp, fx.gposOf(st, f0)), app("<=", fx.gendOf(st, l0), ge))))
+				note("slice " + f.Name() + " inside")
 			}
 			first, last := fx.elemRef(x, "0"), fx.elemRef(x, sub(x.Len, "1"))
-			order = append(order, child{eq(x.Len, "0"), fx.gposOf(st, first), fx.gendOf(st, last)})
+			order = append(order, child{eq(x.Len, "0"), fx.gposOf(st, first), fx.gendOf(st, last), f.Name()})
 		}
 	}
 	// siblings in declaration order do not overlap (CreateTable is exempt, as in the property)
@@ -135,6 +150,7 @@ func (fx *fnExec) posInv(st *State, ht, a string) (pos, end, inv string, ok bool
 		for i := 0; i < len(order); i++ {
 			for j := i + 1; j < len(order); j++ {
 				cs = append(cs, or(order[i].isNil, order[j].isNil, app("<=", order[i].end, order[j].pos)))
+				note(order[i].name + " before " + order[j].name)
 			}
 		}
 	}
